@@ -416,11 +416,17 @@ class MsgMachine(RuleBasedStateMachine):
             raise Violation(unknown[0]['sig'])
 
 
-def main(ctx):
+def machine_shard(rec, shard):
     global _CTX
-    _CTX = ctx
+    _CTX = rec
+    k, n, steps = shard
+    rec.machine(MsgMachine, n, steps, label='msg-machine', seed_offset=k)
+
+
+def main(ctx):
     ctx.pmap('grid_shard', [(k, 16) for k in range(16)])
     ctx.exhaustive = True
     ctx.extra['exhaustive_scope'] = 'the attribute x value-pool x entry-point grid (finite by construction); histories sampled'
-    n = 300 if ctx.tier == 'quick' else 6000
-    ctx.machine(MsgMachine, n, 30 if ctx.tier == 'quick' else 50, label='msg-machine')
+    n = 1200 if ctx.tier == 'quick' else 32000
+    w = 8 if ctx.tier == 'quick' else 16
+    ctx.pmap('machine_shard', [(k, n // w, 30 if ctx.tier == 'quick' else 50) for k in range(w)])
